@@ -54,6 +54,68 @@ theorem word_start_after_consecutive_noovbow2_counterexample :
     bowTable [128, 3221225471, 2147483776, 4] = [true, false, false, true] ∧ 2147483776 &&& NOOOVBOW2 ≠ 0 := by
   decide
 
+/-- the repaired word-start table (`InputBuffer::build` after the fix): the example above no longer
+lets the last character start a word -/
+theorem word_start_after_consecutive_noovbow2_fixed :
+    bowTableFix [128, 3221225471, 2147483776, 4] = [true, false, false, false] := by
+  decide
+
+/-- **NOOOVBOW2 means "this and the next character cannot start a word"** — for the repaired code, for
+every text: a NOOOVBOW2 character is never a word start, and neither is the character after it. -/
+theorem noovbow2_bans_this_and_next (cats : List Nat) (i : Nat) (c : Nat)
+    (hc : cats[i]? = some c) (h2 : c &&& NOOOVBOW2 ≠ 0) :
+    (bowTableFix cats)[i]? = some false ∧ (i + 1 < cats.length → (bowTableFix cats)[i + 1]? = some false) := by
+  -- generalise over the scanner state
+  have key : ∀ (cats : List Nat) (nb : Bool) (prev : Nat) (i : Nat) (c : Nat), cats[i]? = some c → c &&& NOOOVBOW2 ≠ 0 →
+      (bowGoV true cats nb prev)[i]? = some false ∧
+      (i + 1 < cats.length → (bowGoV true cats nb prev)[i + 1]? = some false) := by
+    intro cats
+    induction cats with
+    | nil => intro nb prev i c hc; simp at hc
+    | cons x rest ih =>
+      intro nb prev i c hc h2
+      cases i with
+      | zero =>
+        have hx : x = c := by simpa using hc
+        subst hx
+        -- the character itself is banned; the state handed on has next_bow = false
+        have hstate : ∀ (l : List Nat) (p : Nat), 0 < l.length → (bowGoV true l false p)[0]? = some false := by
+          intro l p hl
+          cases l with
+          | nil => simp at hl
+          | cons y ys => simp [bowGoV]
+        cases nb with
+        | false =>
+          have hz : (x &&& NOOOVBOW2 == 0) = false := by simpa using h2
+          simp only [bowGoV, Bool.not_false, if_true, hz]
+          refine ⟨by simp, fun hlt => ?_⟩
+          have : 0 < rest.length := by simpa using hlt
+          simpa using hstate rest x this
+        | true =>
+          simp only [bowGoV, Bool.not_true, Bool.false_eq_true, if_false, h2, ne_eq, not_false_eq_true, if_true]
+          refine ⟨by simp, fun hlt => ?_⟩
+          have : 0 < rest.length := by simpa using hlt
+          simpa using hstate rest x this
+      | succ j =>
+        have hc' : rest[j]? = some c := by simpa using hc
+        -- whatever branch is taken for `x`, the tail is scanned by `bowGoV true rest _ x`
+        have htail : ∃ nb', bowGoV true (x :: rest) nb prev = (bowGoV true (x :: rest) nb prev).head! :: bowGoV true rest nb' x := by
+          simp only [bowGoV]
+          split
+          · exact ⟨_, rfl⟩
+          · split
+            · exact ⟨_, rfl⟩
+            · split
+              · exact ⟨_, rfl⟩
+              · split <;> exact ⟨_, rfl⟩
+        obtain ⟨nb', hnb⟩ := htail
+        rw [hnb]
+        have := ih nb' x j c hc' h2
+        refine ⟨by simpa using this.1, fun hlt => ?_⟩
+        have hlt' : j + 1 < rest.length := by simpa using hlt
+        simpa using this.2 hlt'
+  exact key cats true 0 i c hc h2
+
 /-- What `runsSpec` denotes, part 1: the run that starts a text is at least one character, lies inside
 the text, keeps a class in common (whenever the first character has a class at all — always the case for
 a loaded table, C17), and is maximal: no longer prefix keeps a class in common. -/
